@@ -586,6 +586,18 @@ def withdrawEmissions (c : Ctx) : Res Out := do
   let (b', x', amount) ← Bank.settleEmissions c.b.books (toBal s) c.now
   .ok { slots := c.a.slots.set i (ofBal c.b.key x'), books := b', tokens := amount, window := c.g.window }
 
+/-! ### `marginfi_account_close`, the whole instruction
+
+the AUTHORITY signs (regenerated table: `has_one = authority`; no group-admin path, no receivership path) → the account is not
+frozen → `can_be_closed`: not disabled, every one of the 16 slots empty on both sides (less than one share), neither in a flash
+loan nor in receivership. Anchor then closes the account (its rent goes to the fee payer). -/
+
+def closeAccount (c : Ctx) : Res Unit := do
+  runChecks c.env (checks .MarginfiAccountClose)
+  Bank.chk (!(flag c ACCOUNT_FROZEN)) E.AccountFrozen
+  let ok ← Account.canBeClosed c.a.slots (flag c ACCOUNT_DISABLED) (flag c ACCOUNT_IN_FLASHLOAN) (flag c ACCOUNT_IN_RECEIVERSHIP)
+  Bank.chk ok E.IllegalAction
+
 /-! ### `lending_account_end_flashloan`, the whole instruction
 
 the authority signs (regenerated table) → not via CPI → the account is neither disabled, in receivership nor frozen → the
